@@ -145,7 +145,7 @@ def run(ctx):
         cases.append((name, G.render(decls), G.model_line(decls), "deterministic"))
     for name, src in G.RAW:
         cases.append((name, src, None, "raw"))
-    nrand = ctx.n(24, 400)
+    nrand = ctx.n(16, 400)
     shape = {}
     for i in range(nrand):
         g = G.Gen(ctx.rng)
@@ -155,7 +155,7 @@ def run(ctx):
             shape[k] = shape.get(k, 0) + v
         cases.append(("rnd-" + vlib.sha(src), src, G.model_line(decls), "random"))
     # extra shape-only random programs (cheap: no build)
-    nshape = ctx.n(400, 5000)
+    nshape = ctx.n(300, 5000)
     shape_only = []
     for i in range(nshape):
         g = G.Gen(ctx.rng)
@@ -255,8 +255,8 @@ def run(ctx):
               rule="%d deterministic MiniGo programs (controls + finding dimensions) + %d handwritten Go texts + %d seeded random MiniGo "
                    "programs, all three through conversion, XGo compile, go build and run (one batched binary); + %d seeded random "
                    "MiniGo programs for the shape comparison only; non-trivial = distinct source longer than 200 bytes. NOT generated at "
-                   "random (deterministic set): binders named like an import or an XGo builtin, lower-case method twins, function "
-                   "literals with an empty return, for-post statements, init functions"
+                   "random (deterministic set): binders named like an import or an XGo builtin, lower-case method twins, "
+                   "call statements in for-post position, init functions"
                    % (len(G.deterministic()), len(G.RAW), nrand, nshape),
               origin_histogram=hist, construct_histogram=dict(sorted(shape.items())),
               shape_compared=len(a), behaviour_same=nsame, behaviour_programs=len(cases))
